@@ -1186,6 +1186,7 @@ def family_pdhg_acc(ctx, r, exact, n, opaque=False):
             if st_ == 'ok' else {}
         if inexact:
             e['_inexact'] = True
+        e['_all_dyadic_or_tolerance'] = True
         return e
     # square roots are irrational except in the first iteration of the `sq_exact` cases
     # ... and the conjugate of an L1 term is the L-infinity ball projection, which ODL computes with
@@ -1217,6 +1218,85 @@ def family_pdhg_acc(ctx, r, exact, n, opaque=False):
     return cases
 
 
+def family_cg_restart(ctx, r, exact, n, opaque=False):
+    """conjugate_gradient / conjugate_gradient_normal called AGAIN with the returned x: not a
+    resumption but a restart (C11.cg_restart_state: x and the residual are carried, the search
+    direction is reset).  Oracle (real code only): a call with niter=0 leaves x alone; the callback
+    sees one iterate per executed iteration, the last being the result; the FIRST iterate of the
+    second call is the exact-line-search steepest-descent step from x_n (what a restart does),
+    computed here with numpy.  Model: CgP.runSplit / CgnP.runSplit."""
+    import odl
+    from odl.solvers import conjugate_gradient, conjugate_gradient_normal
+    variant = r.choice(['cg', 'cgn'])
+    d = r.randint(2, 4)
+    if variant == 'cg':
+        B = sl.small_int_matrix(r, d, d)
+        M = B.T.dot(B) + np.eye(d)              # symmetric positive definite, integer entries
+        fn = conjugate_gradient
+    else:
+        M = sl.small_int_matrix(r, r.randint(2, 4), d)
+        fn = conjugate_gradient_normal
+    op = odl.MatrixOperator(M)
+    rhs = sl.dy_vec(r, M.shape[0], 16, 8)
+    x0 = sl.dy_vec(r, d, 16, 8)
+    a, b = r.randint(0, 3), r.randint(0, 3)
+    p = dict(solver='cg_restart', opkind='{}{}x{}'.format(variant, M.shape[0], d), fk=variant, gk='-',
+             x0=x0, cseed=r.cseed, exact=exact, opaque=opaque)
+    key = '{} called again with the returned x (restart) {}'.format(fn.__name__, p['opkind'])
+
+    def call(x_start, k, mk=unflat):
+        x = mk(op.domain, x_start)
+        rec = Recorder()
+        st, _ = guarded(fn, op, x, mk(op.range, rhs), niter=k, callback=rec)
+        return st, rec.iterates, flat(x).copy()
+    st1, log1, mid = call(x0, a)
+    st2, log2, end = call(mid, b)
+    st = st1 if st1 != 'ok' else st2
+    if st != 'ok':
+        ctx.err(err_kind(st))
+    else:
+        for k, lg, res, start in ((a, log1, mid, x0), (b, log2, end, mid)):
+            if len(lg) > k or (lg and np.any(lg[-1] != res)) or (not lg and np.any(res != start)):
+                viol(ctx, key + ': callback', '{} callbacks in {} iterations, last {} result {} start {}'.format(
+                    len(lg), k, lg[-1] if lg else None, res, start), p, n=a, m=b)
+        if log2:
+            if variant == 'cg':
+                res = rhs - M.dot(mid)
+                den = res.dot(M.dot(res))
+                want = mid + (res.dot(res) / den) * res if den else mid
+            else:
+                res = M.T.dot(rhs - M.dot(mid))
+                q = M.dot(res)
+                want = mid + (res.dot(res) / q.dot(q)) * res if q.dot(q) else mid
+            dd = sl.arrays_differ([log2[0]], [want])
+            if dd:
+                viol(ctx, key + ': first iterate of the second call',
+                     'is not the exact-line-search steepest-descent step from the returned x: ' + dd,
+                     p, n=a, m=b)
+        st_d, log_d, end_d = call(mid, b, sl.unflat_distinct)
+        ctx.hit('resume/equal-distinct-space/cg_restart')
+        if st_d != 'ok' or sl.arrays_differ(log_d, log2):
+            viol(ctx, key + ' in equal but separately built spaces', 'iterates differ ({})'.format(st_d),
+                 p, n=a, m=b)
+        st_f, log_f, full = call(x0, a + b)
+        ctx.hit('excluded/{} n then m vs n+m at once: {}'.format(
+            variant, 'differs' if st_f != 'ok' or sl.arrays_differ([full], [end]) else 'same'))
+    log = list(log1) + list(log2)
+    sig = ('model', 'cg_restart', p['opkind'], a, b)
+    nt = st == 'ok' and nontrivial(log, x0)
+    A, At = wire_op(op)
+    if variant == 'cg':
+        line = 'cgsplit A={} rhs={} x0={} n={} m={}'.format(fmat(A), fl(rhs), fl(x0), a, b)
+    else:
+        line = 'cgnsplit A={} At={} rhs={} x0={} n={} m={}'.format(fmat(A), fmat(At), fl(rhs), fl(x0), a, b)
+    ctx.hit('model/cg_restart/' + variant)
+    ctx.hit('model/cg_restart/split=' + ('trivial' if a == 0 or b == 0 else 'proper'))
+    # the model stops when the residual is EXACTLY zero, the float code goes on with residuals of
+    # rounding size: then only the iterates up to the model's stop are compared
+    return [Case(desc_of(p, n=a, m=b), sig if nt else None, line, st, log,
+                 {'x': end, '_prefix_if_model_stopped': True, '_inexact': True} if st == 'ok' else {})]
+
+
 FAMILIES = {
     'admm': family_admm,
     'adupdates': family_adupdates,
@@ -1231,6 +1311,7 @@ FAMILIES = {
     'resume_float32': family_resume_float32,
     'proxgrad_lam': family_proxgrad_lam,
     'pdhg_acc': family_pdhg_acc,
+    'cg_restart': family_cg_restart,
 }
 EXPECTED_BRANCHES = [
     'model/admm/opt', 'model/admm/simple', 'model/adupdates/inner', 'model/adupdates/outer',
@@ -1257,6 +1338,8 @@ EXPECTED_BRANCHES = [
     'model/pdhg_acc/gamma=primal', 'model/pdhg_acc/gamma=dual', 'model/pdhg_acc/gamma=none',
     'model/pdhg_acc/fresh', 'model/pdhg_acc/resumed(steps handed back)', 'model/pdhg_acc/exact-sqrt',
     'resume/equal-distinct-space/pdhg_acc',
+    'model/cg_restart/cg', 'model/cg_restart/cgn', 'model/cg_restart/split=trivial',
+    'model/cg_restart/split=proper', 'resume/equal-distinct-space/cg_restart',
 ]
 OPAQUE_FAMILIES = ('admm', 'adupdates', 'dpdc', 'proxgrad', 'pdhg')
 
@@ -1381,11 +1464,26 @@ def run(ctx, deep=False):
             continue
         d = None
         ex = is_exact(c)
+        if ex and c.extra.get('_all_dyadic_or_tolerance'):
+            # one verdict for the whole answer: a non-dyadic value anywhere (e.g. x = 4/3 while
+            # x_relax = 3/2 x - 1/2 x_old happens to be dyadic) means float operations on the path rounded
+            for k in ['log'] + sorted(c.extra):
+                if k in fields and not k.startswith('_'):
+                    for row in core.pfmat(fields[k]):
+                        if any(sl.odd_bits(v) > 44 for v in row):
+                            ex = False
         ctx.hit('compare/' + ('exact' if ex else 'tolerance'))
+        stopped_early = False
         if c.impl_log is not None:
-            d = compare_seq(ctx, c, c.impl_log, core.pfmat(fields.get('log', '-')), ex)
+            mlog = core.pfmat(fields.get('log', '-'))
+            ilog = c.impl_log
+            if c.extra.get('_prefix_if_model_stopped') and fields.get('stopped') == 'true' \
+                    and len(mlog) < len(ilog):
+                ctx.hit('compare/cg: model stopped at an exactly zero residual (prefix compared)')
+                ilog, stopped_early = ilog[:len(mlog)], True
+            d = compare_seq(ctx, c, ilog, mlog, ex)
         for k, v in sorted(c.extra.items()):
-            if d is None and k in fields:
+            if d is None and k in fields and not stopped_early:
                 d = compare_extra(c, k, v, core.pfl(fields[k]), ex)
                 d = d and 'final {}: {}'.format(k, d)
         if d:
